@@ -200,7 +200,10 @@ func genMyPacket(t *rapid.T) MyPacketCase {
 	n := rapid.IntRange(1, 4).Draw(t, "n")
 	huge := false
 	for i := 0; i < n; i++ {
-		b := genBlob(t, fmt.Sprintf("p%d", i), !huge)
+		b := genBlob(t, fmt.Sprintf("p%d", i), false)
+		if thorough() && !huge && rapid.IntRange(0, 7).Draw(t, fmt.Sprintf("p%d.huge", i)) == 0 {
+			b.N = rapid.SampledFrom([]int{1<<24 - 2, 1<<24 - 1, 1 << 24, 1<<24 + 1, 2*(1<<24-1) - 1, 2 * (1<<24 - 1), 2*(1<<24-1) + 1}).Draw(t, fmt.Sprintf("p%d.hugelen", i))
+		}
 		if b.N == 0 {
 			b.N = 1 // an empty payload is a separate, rare class below
 		}
